@@ -2,6 +2,7 @@ package main
 
 import (
 	"bytes"
+	"io"
 	"encoding/json"
 	"fmt"
 	"hash/crc32"
@@ -129,7 +130,7 @@ func (p c04Pre) Write(b []byte) (int, error) {
 }
 func (p c04Pre) Sync() error { return p.next.Sync() }
 
-var c04SinkKinds = []string{"lock", "combine", "bws", "tee", "lock-of-lock", "tee-fault"}
+var c04SinkKinds = []string{"lock", "combine", "combine1", "bws", "tee", "lock-of-lock", "tee-fault"}
 
 // c04Flaky fails every second write (a full disk / broken pipe on one tee branch).
 type c04Flaky struct {
@@ -172,6 +173,10 @@ func c04Build(kind string, gt *Gate, seq *int64) *c04World {
 	case "combine":
 		w.core = zapcore.NewCore(c04Enc(), c04Pre{gt, zap.CombineWriteSyncers(rec(), rec()), 1}, zapcore.DebugLevel)
 		w.sync = []bool{true, true}
+	case "combine1":
+		// what zap.Open / Config.Build hand back for a single destination
+		w.core = zapcore.NewCore(c04Enc(), c04Pre{gt, zap.CombineWriteSyncers(rec()), 1}, zapcore.DebugLevel)
+		w.sync = []bool{true}
 	case "bws":
 		b := &zapcore.BufferedWriteSyncer{WS: rec(), Size: 256, FlushInterval: time.Hour}
 		w.core = zapcore.NewCore(c04Enc(), c04Pre{gt, b, 1}, zapcore.DebugLevel)
@@ -315,12 +320,20 @@ func checkC04(c *Ctx) {
 			}
 		}
 	}
+	// mutual exclusion of the sink itself: while one goroutine is parked inside the innermost write of a
+	// lock-protected sink, a second one let through its presink gate must not get inside as well
+	for _, kind := range []string{"lock", "lock-of-lock", "combine", "combine1", "tee-fault"} {
+		if key, what := c04MutexProbe(kind); key != "" {
+			c.Violation(key, what, map[string]interface{}{"sink": kind, "probe": "mutual-exclusion"})
+		}
+		c.Add("traces_validated_against_impl", 1)
+	}
 	c.Set("projected_interleavings", int64(len(keys)))
 	c.Set("gate_replays", int64(nrep))
 	// (ii) recorded free-running runs validated against PipelineTrace.tla
 	c04Stress(c)
 	c.Set("exhaustive", false)
-	c.Set("rule", "every distinct projection (encode / sink-write order) of the two-goroutine interleavings of Pools.tla forced on 6 sink kinds; recorded 8-goroutine runs over lock / buffered / tee / file sinks validated by TLC against PipelineTrace.tla and by the line oracle")
+	c.Set("rule", "every distinct projection (encode / sink-write order) of the two-goroutine interleavings of Pools.tla forced on 7 sink kinds; recorded 8-goroutine runs over lock / buffered / tee / file sinks validated by TLC against PipelineTrace.tla and by the line oracle")
 }
 
 // c04GateReplay forces one projected interleaving.
@@ -474,11 +487,21 @@ func c04Stress(c *Ctx) {
 	defer os.RemoveAll(dir)
 	for run := 0; run < runs; run++ {
 		var seq int64
-		kind := []string{"tee", "tee-file"}[run%2]
+		kind := []string{"tee", "tee-file", "tee-ticking"}[run%3]
 		var w *c04World
 		var file string
 		if kind == "tee" {
 			w = c04Build("tee", nil, &seq)
+		} else if kind == "tee-ticking" {
+			// the buffered branch flushes on a fast timer while the goroutines write
+			w = &c04World{}
+			r1 := &c04Rec{id: 1, seq: &seq}
+			r2 := &c04Rec{id: 2, seq: &seq}
+			w.recs = []*c04Rec{r2, r1}
+			w.sync = []bool{false, true}
+			bw := &zapcore.BufferedWriteSyncer{WS: r2, Size: 2048, FlushInterval: 50 * time.Microsecond}
+			w.finish = func() { bw.Stop() }
+			w.core = zapcore.NewTee(zapcore.NewCore(c04Enc(), bw, zapcore.DebugLevel), zapcore.NewCore(c04Enc(), zapcore.Lock(r1), zapcore.DebugLevel))
 		} else {
 			// sink 1 = Lock(recorder), sink 2 = a real file opened through zap.Open
 			w = &c04World{finish: func() {}}
@@ -495,6 +518,12 @@ func c04Stress(c *Ctx) {
 			w.core = zapcore.NewTee(zapcore.NewCore(c04Enc(), ws, zapcore.DebugLevel), zapcore.NewCore(c04Enc(), zapcore.Lock(r), zapcore.DebugLevel))
 		}
 		lg := zap.New(w.core)
+		// entries whose fields cannot be encoded, through an unrelated logger that shares zap's pools, before and
+		// while the goroutines log: failures elsewhere must not disturb anybody's lines
+		poison := zap.New(zapcore.NewCore(c04Enc(), zapcore.AddSync(io.Discard), zapcore.DebugLevel))
+		for k := 0; k < 4; k++ {
+			poison.Info("poison", zap.Reflect("c", make(chan int)), zap.Any("f", func() {}))
+		}
 		n := 10 + rng.Intn(15)
 		var evmu sync.Mutex
 		var evs []c04TraceEv
@@ -605,4 +634,37 @@ func c04Stress(c *Ctx) {
 	c.Add("recorded_runs_rejected_by_PipelineTrace", 1)
 	c.Note("DRIFT: a recorded run is not a behaviour of PipelineTrace.tla: %s", at)
 	fmt.Println("DRIFT property=C04 trace spec rejected a recorded run:", at)
+}
+
+func c04MutexProbe(kind string) (key, what string) {
+	gt := NewGate()
+	defer gt.Drain()
+	w := c04Build(kind, gt, nil)
+	lg := zap.New(w.core, zap.ErrorOutput(zapcore.AddSync(io.Discard)))
+	for _, p := range []string{"1", "2"} {
+		p := p
+		gi := int(p[0] - '0')
+		gt.Go(p, func() {
+			defer func() { recover() }()
+			lg.Info(fmt.Sprintf("g%d-%d", gi, 1), c04Fields(nil, gi, 1, 40)...)
+		})
+	}
+	for _, p := range []string{"1", "2"} {
+		if s, _ := gt.WaitParked(p, 3*time.Second, "presink"); s != "presink" {
+			return "", ""
+		}
+	}
+	gt.Release("1")
+	if s, _ := gt.WaitParked("1", 3*time.Second, "sink"); s != "sink" {
+		return "", ""
+	}
+	gt.Release("2")
+	s, _ := gt.WaitParked("2", 50*time.Millisecond, "sink")
+	gt.Drain()
+	gt.WaitDone("1", 1, 5*time.Second)
+	gt.WaitDone("2", 1, 5*time.Second)
+	if s == "sink" {
+		return "C04/sink-overlap", fmt.Sprintf("sink kind %s: a second goroutine entered the sink's Write while the first was still inside it (the sink is not lock-protected)", kind)
+	}
+	return "", ""
 }
